@@ -38,10 +38,10 @@ func loadKnownFindings() []KnownFinding {
 
 // propertyPlan describes what a property check verifies.
 type propertyPlan struct {
-	ID     string
-	Level  string // proof | other
-	Pkgs   []string
-	Extra  func(s *Session, tier string) []*FuncResult // structural / generated-code checks
+	ID      string
+	Level   string // proof | other
+	Pkgs    []string
+	Extra   func(s *Session, tier string) []*FuncResult // structural / generated-code checks
 	Explain string
 }
 
@@ -170,15 +170,15 @@ func runCheck(id, tier string, seed int, overlay map[string][]byte, quiet bool) 
 	}
 
 	var (
-		nObl, nDis, nVC, nCover, nUndec int
-		violations                      int
-		samples                         []sample
-		byBackend                       = map[string]int{}
+		nObl, nDis, nVC, nCover, nUndec                           int
+		violations                                                int
+		samples                                                   []sample
+		byBackend                                                 = map[string]int{}
 		underContract, inlined, byContract, abstracted, userCalls []string
-		notes                           []string
-		kfLines                         []string
-		failedNames                     []string
-		slow                            []sample
+		notes                                                     []string
+		kfLines                                                   []string
+		failedNames                                               []string
+		slow                                                      []sample
 	)
 	seenStr := map[string]bool{}
 	addU := func(dst *[]string, xs []string) {
